@@ -24,6 +24,24 @@ deriving Repr, DecidableEq
 
 def LL.setCallables (_s : LL) (cs : List LThunk) : LL := ⟨cs⟩
 
+/-- a lazy-list object CREATED by the running method (`Copyable.copy(self)`, the blank `self` of `__init__`).  Only such
+an object may be written (`x._callables = …` is translated to `Fresh.setCallables`), so a method that writes its
+receiver — `new = self` instead of `new = self.copy()` — no longer type-checks against the Core definitions: the
+"receivers behave afterwards as before" clause is visible to the translated obligations as a typing discipline -/
+structure Fresh where
+  obj : LL
+deriving Repr, DecidableEq
+
+def LL.fresh (s : LL) : Fresh := ⟨s⟩
+def Fresh.setCallables (_x : Fresh) (cs : List LThunk) : Fresh := ⟨⟨cs⟩⟩
+def Fresh.callables (x : Fresh) : List LThunk := x.obj.callables
+
+/-- returning an object: a fresh one becomes an ordinary lazy list -/
+class ToLL (α : Type) where
+  toLL : α → LL
+instance : ToLL LL := ⟨id⟩
+instance : ToLL Fresh := ⟨Fresh.obj⟩
+
 /-! ### CPython primitives -/
 
 /-- an object as `list.__getitem__` sees it -/
@@ -96,6 +114,13 @@ class PyLen (α : Type) where
   len : α → Nat
 instance {β} : PyLen (List β) := ⟨List.length⟩
 instance : PyLen LL := ⟨fun s => s.callables.length⟩
+instance : PyLen Fresh := ⟨fun s => s.callables.length⟩
+
+/-- `a * b` when one side is a list and the other an int -/
+class PyMul (α β : Type) (γ : outParam Type) where
+  mul : α → β → γ
+instance {α} : PyMul (List α) Int (List α) := ⟨Py.listMul⟩
+instance {α} : PyMul Int (List α) (List α) := ⟨fun n l => Py.listMul l n⟩
 
 class PyIter (α : Type) (β : outParam Type) where
   iter : α → List β
@@ -145,6 +170,9 @@ instance : ToCallables (Except Err Item) := ⟨fun
   | .error e => .error e⟩
 
 def LL.new {α} [ToCallables α] (x : α) : Except Err LL := mapE LL.mk (ToCallables.toE x)
+
+/-- `LazyList(x)` with the TRANSLATED `__init__` as the constructor body -/
+def LL.newWith {α} [ToCallables α] (init : List LThunk → LL) (x : α) : Except Err LL := mapE init (ToCallables.toE x)
 
 class ToGetRes (α : Type) where
   ret : α → Except Err GetRes
